@@ -130,6 +130,14 @@ def run_case(case, seed):
             if not e <= 1e-9:
                 viol.append(dict(oracle="dft-matrix", key=dict(site="linop." + name, when=when),
                                  detail="max|M - F_ref|/max|F_ref| = %.3g" % e))
+            # the operators derived from it (adjoint = inverse under the orthonormal scaling, adjoint of the adjoint)
+            for dname, D, Rd in ((".H", A.H, R.conj().T), (".H.H", A.H.H, R), (".H.H.H", A.H.H.H, R.conj().T)):
+                Md = dense.dense_linop(D)
+                trans += Md.shape[1]
+                ed = dense.relerr(Md, Rd)
+                if not ed <= 1e-9:
+                    viol.append(dict(oracle="dft-matrix", key=dict(site="linop." + name + dname, when=when),
+                                     detail="max|M(%s%s) - ref|/max|ref| = %.3g" % (name, dname, ed)))
             MN = dense.dense_linop(A.N)
             if not dense.relerr(MN, np.eye(M.shape[1])) <= 1e-9:
                 viol.append(dict(oracle="unitary-shortcut", key=dict(site="linop.%s.N" % name, when=when), detail="A.N is not the identity"))
